@@ -230,6 +230,19 @@ def gen_topology_doc(rng):
                 e['params'][k] = {d: v for d, v in e['params'][k].items() if d in uids}
                 if not e['params'][k]:
                     e['params'].pop(k)
+    # design bands stated per degree, with or without the optional spacing
+    if flavour == 'mesh':
+        for e in tj['elements']:
+            if e['type'] != 'Roadm' or rng.random() < 0.65:
+                continue
+            succ = [c['to_node'] for c in tj['connections'] if c['from_node'] == e['uid']
+                    and not c['to_node'].startswith('trx')]
+            if not succ:
+                continue
+            band = {'f_min': rng.choice([191.3e12, 191.4e12]), 'f_max': rng.choice([195.1e12, 196.0e12])}
+            if rng.random() < 0.6:
+                band['spacing'] = rng.choice([50e9, 100e9, 75e9, 62.5e9])
+            e.setdefault('params', {})['per_degree_design_bands'] = {rng.choice(succ): [band]}
     # a ROADM may mix the three per-degree target types (one type per degree): the documents are compared as they
     # are, so the degree can be named by the element that follows the ROADM in the document
     if flavour == 'mesh':
